@@ -100,6 +100,10 @@ fn catalogue() -> Vec<String> {
     let postings = [
         "A  1 JPY",
         "Assets:Bank Account  1,000,000 JPY",
+        // numbers beyond 64 bits, in the integer and in the fraction digits (seed C05-l: the printer went through u64)
+        "Assets:Chain  20,000,000,000,000,000,000 WEI",
+        "Assets:Chain  -1,000.98765432109876543210 X",
+        "Assets:Chain  79,228,162,514,264,337,593,543,950,335 SAT",
         "Assets:銀行  -2,000.50 CHF",
         "* A  1 JPY",
         "! Assets:B  0.00 USD",
